@@ -1089,7 +1089,37 @@ impl Sut for FtrlSut {
             }
         }
         let (j, probs): (usize, Option<Vec<f32>>) = match c.ops[pos - 1] {
-            Op::Fit(j) => (j, None),
+            Op::Fit(j) => {
+                // the synchronous step is, by its documentation, "predict the batch, then update
+                // with those probabilities": replaying it through the asynchronous API from the
+                // same previous state must give the identical state, bit for bit
+                let params = Ftrl::<f64>::params_with_rng(Xoshiro256Plus::seed_from_u64(c.data_seed))
+                    .alpha(h.ftrl_alpha)
+                    .beta(h.ftrl_beta)
+                    .l1_ratio(h.ftrl_l1)
+                    .l2_ratio(h.ftrl_l2)
+                    .check()
+                    .ok()?;
+                let mut twin = match prev {
+                    Some(p) => p.0.clone(),
+                    None => Ftrl::new(params, c.d),
+                };
+                let (a, b) = d.batches[j];
+                let ds = DatasetBase::new(d.x.slice(ndarray::s![a..b, ..]).to_owned(), Array1::from(d.yb[a..b].to_vec()));
+                let probs = twin.predict(ds.records());
+                twin.update(&ds, probs.view());
+                if twin.z() != now.z() || twin.n() != now.n() {
+                    let i = (0..c.d).find(|&i| twin.z()[i].to_bits() != now.z()[i].to_bits() || twin.n()[i].to_bits() != now.n()[i].to_bits()).unwrap_or(0);
+                    return Some(format!(
+                        "fit_with and predict+update from the same state disagree: z[{i}] = {:e} vs {:e}, n[{i}] = {:e} vs {:e}",
+                        now.z()[i],
+                        twin.z()[i],
+                        now.n()[i],
+                        twin.n()[i]
+                    ));
+                }
+                (j, None)
+            }
             Op::Update(j) => (j, pending_before.get(&j).cloned()),
             Op::Predict(_) => {
                 // predicting must not change the state
@@ -1170,6 +1200,7 @@ fn fault_env(r: &mut Prng, pool: bool) -> Env {
         context: *r.pick(&[Context::External, Context::InWorker]),
         cpus: *r.pick(&[1usize, 1, 2]),
         envvars_seed: if r.chance(0.3) { r.next_u64() >> 20 } else { 0 },
+        heap_seed: if r.chance(0.3) { r.next_u64() >> 20 } else { 0 },
         replay: None,
     }
 }
@@ -1266,7 +1297,7 @@ pub fn gen_case(r: &mut Prng, learner: Learner, big: bool) -> Case {
         cuts,
         hyper: Hyper {
             var_smoothing: *r.pick(&[1e-9, 1e-9, 1e-6, 1e-4]),
-            mnb_alpha: *r.pick(&[1.0, 0.5, 1e-3, 2.0, 0.0001]),
+            mnb_alpha: *r.pick(&[1.0, 0.5, 1e-3, 2.0, 0.0001, 1e-12, 1e-9]),
             km_tolerance: *r.pick(&[1e-9, 0.01, 0.1, 0.5, 2.0, 1e9]),
             km_init: r.pick(&["random", "pp", "pre", "pre"]).to_string(),
             km_l1: r.chance(0.3),
